@@ -16,6 +16,18 @@ pub struct Ctx<'a> {
     pub renv: &'a Env,
     /// set when the alternative list had to be truncated (then non-membership proves nothing)
     pub truncated: bool,
+    /// why the rules gave "error" somewhere in this resolution (root-cause classes for findings)
+    pub reasons: std::collections::BTreeSet<&'static str>,
+}
+
+impl<'a> Ctx<'a> {
+    pub fn new(wenv: &'a Env, renv: &'a Env) -> Self {
+        Ctx { wenv, renv, truncated: false, reasons: Default::default() }
+    }
+    fn err(&mut self, why: &'static str) -> Vec<Alt> {
+        self.reasons.insert(why);
+        vec![Alt::Err]
+    }
 }
 
 const CAP: usize = 48;
@@ -123,7 +135,7 @@ pub fn resolve(w: &SNode, r: &SNode, v: &V, cx: &mut Ctx, depth: usize) -> Vec<A
             }
         }
         if !any {
-            return vec![Alt::Err];
+            return cx.err("no-reader-union-branch-matches");
         }
         return out;
     }
@@ -142,27 +154,29 @@ pub fn resolve(w: &SNode, r: &SNode, v: &V, cx: &mut Ctx, depth: usize) -> Vec<A
         }
         (SType::Enum(wn, wsyms, _), SType::Enum(rn, rsyms, rdef), V::Enum(i)) => {
             if !names_match(wn, rn) {
-                return vec![Alt::Err];
+                return cx.err("named-type-name-mismatch");
             }
             let sym = &wsyms[*i];
             match rsyms.iter().position(|s| s == sym) {
                 Some(p) => one(V::Enum(p)),
                 None => match rdef.as_ref().and_then(|d| rsyms.iter().position(|s| s == d)) {
                     Some(p) => one(V::Enum(p)),
-                    None => vec![Alt::Err],
+                    None => cx.err("enum-symbol-unknown-to-reader-without-enum-default"),
                 },
             }
         }
         (SType::Fixed(wn, ws), SType::Fixed(rn, rs), _) => {
             if ws == rs && names_match(wn, rn) && wd.logical == rd.logical {
                 one(v.clone())
+            } else if !names_match(wn, rn) {
+                cx.err("named-type-name-mismatch")
             } else {
-                vec![Alt::Err]
+                cx.err("fixed-size-or-logical-type-differs")
             }
         }
         (SType::Record(wn, wfields), SType::Record(rn, rfields), V::Record(vals)) => {
             if !names_match(wn, rn) {
-                return vec![Alt::Err];
+                return cx.err("named-type-name-mismatch");
             }
             let mut parts: Vec<Vec<Alt>> = vec![];
             for rf in rfields {
@@ -178,7 +192,10 @@ pub fn resolve(w: &SNode, r: &SNode, v: &V, cx: &mut Ctx, depth: usize) -> Vec<A
                                 parts.push(vec![Alt::Err]);
                             }
                         },
-                        None => parts.push(vec![Alt::Err]),
+                        None => {
+                            let e = cx.err("reader-field-without-default-missing-in-writer");
+                            parts.push(e)
+                        }
                     },
                 }
             }
@@ -192,10 +209,10 @@ pub fn resolve(w: &SNode, r: &SNode, v: &V, cx: &mut Ctx, depth: usize) -> Vec<A
                 }
                 // resolution uses the underlying types (handled for int/long based ones)
                 if !prim_match(wt, rt) {
-                    return vec![Alt::Err];
+                    return cx.err("types-do-not-match");
                 }
                 return match (v, rd.logical.is_some() || wd.logical.is_some()) {
-                    (V::Int(_) | V::Long(_), _) => promote(wt, rt, v).map(one).unwrap_or(vec![Alt::Err]),
+                    (V::Int(_) | V::Long(_), _) => promote(wt, rt, v).map(one).unwrap_or_else(|| cx.err("types-do-not-match")),
                     _ => {
                         cx.truncated = true; // bytes/fixed/string based logical types across a change: not modelled
                         vec![Alt::Err]
@@ -203,9 +220,9 @@ pub fn resolve(w: &SNode, r: &SNode, v: &V, cx: &mut Ctx, depth: usize) -> Vec<A
                 };
             }
             if !prim_match(wt, rt) {
-                return vec![Alt::Err];
+                return cx.err("types-do-not-match");
             }
-            promote(wt, rt, v).map(one).unwrap_or(vec![Alt::Err])
+            promote(wt, rt, v).map(one).unwrap_or_else(|| cx.err("types-do-not-match"))
         }
     }
 }
